@@ -137,6 +137,7 @@ class World(object):
         self.results = {}
         self.instrs = {}
         self.bind_dicts = {}
+        self.bind_of = {}
         self.watch = []
         self.stats = {'alias_hits': 0, 'ref_args': 0, 'raised': 0, 'shared_bind_reuse': 0, 'iref_reuse': 0}
 
@@ -270,6 +271,53 @@ class World(object):
         self.results[idx] = r
         return ['expr', canon.ser_expr(r)]
 
+    def op_exprapi(self, idx, op, resolved, mut):
+        # the other read-only entry points of the expression API: copy / canonize / replace_expr / visit
+        s = sut()
+        e = self.expr_arg(op['e'], op.get('shared'), resolved)
+        before = canon.ser_expr(e)
+        fn = op['fn']
+        try:
+            if fn == 'copy':
+                r = e.copy()
+            elif fn == 'canonize':
+                r = e.canonize()
+            elif fn == 'replace':
+                src = canon.deser_expr(op['src'], s.regs)
+                dst = canon.deser_expr(op['dst'], s.regs)
+                r = e.replace_expr({src: dst})
+            else:
+                r = e.visit(lambda x: x)
+        finally:
+            if canon.ser_expr(e) != before:
+                mut.append('expr')
+        self.results[idx] = r
+        if self.mode == 'inter':
+            # the result must not alias caller-owned mutable containers of the argument: watched until the end
+            self.watch.append(('expr', r, canon.ser_expr(r)))
+        return ['expr', canon.ser_expr(r)]
+
+    def op_mutate_bind(self, idx, op, resolved, mut):
+        # the caller edits the bindings dictionary it built a machine from: the machine must not notice
+        s = sut()
+        m = self.machines[op['m']]
+        d = self.bind_of.get(op['m'])
+        if d is None:
+            return 'no-dict'
+        before = canon.ser_machine(m)
+        key = s.regs[op['reg']]
+        if op.get('delete') and key in d:
+            del d[key]
+        else:
+            d[key] = canon.deser_expr(op['val'], s.regs)
+        if canon.ser_machine(m) != before:
+            mut.append('machine-aliases-bindings')
+        # the watch entry of this dictionary follows the caller's own edit
+        for n, (kind, obj, ser) in enumerate(self.watch):
+            if kind == 'bind' and obj is d:
+                self.watch[n] = (kind, obj, self.ser_bind(d))
+        return 'ok'
+
     def op_new_machine(self, idx, op, resolved, mut):
         s = sut()
         k = op['m']
@@ -291,6 +339,7 @@ class World(object):
                     self.bind_dicts[sid] = d
                 self.watch.append(('bind', d, self.ser_bind(d)))
         before = self.ser_bind(d)
+        self.bind_of[k] = d
         self.machines[k] = s.V.eval_abs(d)
         if self.ser_bind(d) != before:
             mut.append('bind')
@@ -410,7 +459,7 @@ class World(object):
 
 
 def thread_of(op, idx):
-    if 'm' in op and op['op'] in ('new_machine', 'eval', 'get_reg', 'dump', 'step', 'affs', 'clone'):
+    if 'm' in op and op['op'] in ('new_machine', 'eval', 'get_reg', 'dump', 'step', 'affs', 'clone', 'mutate_bind'):
         return 'm%d' % op.get('root', op['m'])
     if op['op'] in ('new_stream', 'dis_stream'):
         return 's%d' % op['s']
@@ -660,14 +709,17 @@ def gen_history(rng):
             return rng.choice(epool)
         return gen.gen_expr(rng, ids, rng.choice([1, 2, 3, 4]))
     roots = {}
+    sid_of = {}
+    closed_sids = set()
     def new_machine(c):
         k = len(machines)
         roots[k] = k
         kind = rng.choice(['x86', 'custom', 'custom']) if scenario != 'rep' else rng.choice(['custom', 'custom', 'x86'])
         op = {'op': 'new_machine', 'm': k, 'kind': kind, 'c': c}
         if kind == 'custom':
-            if shared_binds and rng.random() < max(alias_p, 0.2 if scenario == 'rep' else 0.0):
-                sid = rng.choice(sorted(shared_binds))
+            reusable = sorted(x for x in shared_binds if x not in closed_sids)
+            if reusable and rng.random() < max(alias_p, 0.2 if scenario == 'rep' else 0.0):
+                sid = rng.choice(reusable)
                 op['bind'] = shared_binds[sid]
                 op['shared_bind'] = sid
             else:
@@ -676,6 +728,7 @@ def gen_history(rng):
                 shared_binds[sid] = op['bind']
                 op['shared_bind'] = sid
         machines.append((k, c))
+        sid_of[k] = op.get('shared_bind')
         ops.append(op)
         return k
     while len(ops) < nops:
@@ -739,6 +792,16 @@ def gen_history(rng):
                     size = dst[2]
                     affs.append([dst, gen.gen_expr(rng, ids, 2, size) if size != 32 else pick_expr()])
                 ops.append({'op': 'affs', 'm': k, 'affs': affs, 'shared': shared, 'c': c})
+            elif y < 0.77 and sid_of.get(k) is not None and list(sid_of.values()).count(sid_of[k]) == 1:
+                # (only for a dictionary no other machine was or will be built from: the isolated execution gives
+                # every machine its own dictionary, so an edit between two constructions would differ legitimately)
+                closed_sids.add(sid_of[k])
+                mop = {'op': 'mutate_bind', 'm': k, 'reg': rng.choice(gen.REGS32), 'c': c}
+                if rng.random() < 0.3:
+                    mop['delete'] = 1
+                else:
+                    mop['val'] = gen.r_int(rng.choice([0, 7, 0x1234]))
+                ops.append(mop)
             elif y < 0.88:
                 ops.append({'op': 'get_reg', 'm': k, 'reg': rng.choice(gen.REGS32 + ['zf', 'cf', 'df', 'tsc1']), 'c': c})
                 expr_results.append(len(ops) - 1)
@@ -789,8 +852,15 @@ def gen_history(rng):
                     if rng.random() < 0.6:
                         op2['segm'] = sorted(rng.sample(range(6), rng.choice([1, 3, 6])))
                     ops.append(op2)
-            elif y < 0.92:
+            elif y < 0.86:
                 ops.append({'op': 'simp', 'e': pick_expr(), 'shared': shared, 'c': c})
+                expr_results.append(len(ops) - 1)
+            elif y < 0.92:
+                eop = {'op': 'exprapi', 'fn': rng.choice(['copy', 'canonize', 'canonize', 'replace', 'visit']), 'e': pick_expr(), 'shared': shared, 'c': c}
+                if eop['fn'] == 'replace':
+                    eop['src'] = rng.choice(regs)
+                    eop['dst'] = rng.choice(ids) if rng.random() < 0.5 else gen.r_int(rng.choice([0, 5]))
+                ops.append(eop)
                 expr_results.append(len(ops) - 1)
             else:
                 if not streams or rng.random() < 0.3:
@@ -800,7 +870,7 @@ def gen_history(rng):
                 else:
                     ops.append({'op': 'dis_stream', 's': rng.choice(streams), 'c': c})
     for op in ops:
-        if 'm' in op and op['op'] in ('new_machine', 'eval', 'get_reg', 'dump', 'step', 'affs', 'clone'):
+        if 'm' in op and op['op'] in ('new_machine', 'eval', 'get_reg', 'dump', 'step', 'affs', 'clone', 'mutate_bind'):
             op['root'] = roots.get(op['m'], op['m'])
     cfg = {'clients': nclients, 'alias_p': alias_p, 'scenario': scenario, 'bad_p': bad_p, 'ref_p': ref_p}
     return cfg, ops
